@@ -1,5 +1,6 @@
 import GLua.Engines.TableEng
 import GLua.Engines.SemEng
+import GLua.Engines.LexEng
 import GLua.Engines.CancelEng
 import GLua.Engines.MetaEng
 import GLua.Engines.ChanEng
@@ -29,6 +30,7 @@ def stepLine (s : DState) (line : String) : DState × String :=
   | "reset" :: _ => ({}, "ok")
   | "T" :: r => let (t, v) := TableEng.handle s.tbl r; ({ s with tbl := t }, v.show)
   | "S" :: r => (s, SemEng.handle r)
+  | "L" :: r => (s, (LexEng.handle r).show)
   | "C11M" :: r => (s, (CancelEng.handle r).show)
   | "C04M" :: r => let (t, v) := MetaEng.handle s.meta04 r; ({ s with meta04 := t }, MetaEng.render v)
   | "C13" :: r => let (t, v) := ChanEng.handle s.chan r; ({ s with chan := t }, v.show)
